@@ -18,7 +18,9 @@ def run(ctx):
     if 'A' in ctx.stages:
         cfgs = [('v2 timing 3 entries', pc.mc_cfg('pit-A-timing-v2', 'v2', 3, ctx.pick(3, 4), 'timing', 'v2two')),
                 ('v2 match', pc.mc_cfg('pit-A-match-v2', 'v2', ctx.pick(2, 3), 2, 'match', 'v2one')),
-                ('legacy small + liveness', pc.mc_cfg('pit-A-live-legacy', 'legacy', 2, 2, 'small', 'legacy', live=True))]
+                ('legacy small + liveness', pc.mc_cfg('pit-A-live-legacy', 'legacy', 2, 2, 'small', 'legacy', live=True)),
+                ('v2 deferred await', pc.mc_cfg('pit-A-defer-v2', 'v2', 2, ctx.pick(2, 3), 'timing', 'v2two', defer='Def_both')),
+                ('legacy deferred await', pc.mc_cfg('pit-A-defer-legacy', 'legacy', 2, ctx.pick(2, 3), 'timing', 'legacy', defer='Def_both'))]
         if not ctx.quick:
             cfgs += [('legacy timing 3 entries', pc.mc_cfg('pit-A-timing-legacy', 'legacy', 3, 3, 'timing', 'legacy')),
                      ('v2 digest', pc.mc_cfg('pit-A-dig-v2', 'v2', 3, 2, 'dig', 'v2two')),
@@ -29,6 +31,9 @@ def run(ctx):
         for front, vmap in (('v2', None), ('legacy', {'PASS': 'T', 'FAIL': 'F'})):
             pc.stage_b(ctx, front, cfgp, 'small 2 entries MaxT=2', devs=DEVS[front], vmap=vmap, graph_key='small22',
                        max_paths=ctx.pick(1200, None))
+        for front, V in (('v2', 'v2two'), ('legacy', 'legacy')):
+            cfgp = pc.mc_cfg('pit-B-defer-' + front, front, 2, 2, 'timing', V, defer='Def_both', invs=[], props=[])
+            pc.stage_b(ctx, front, cfgp, 'deferred await 2 entries MaxT=2', devs=DEVS[front], max_paths=ctx.pick(600, None))
     if 'C' in ctx.stages:
         for front in ('v2', 'legacy'):
             pc.stage_c(ctx, front, ctx.pick(300, 5000), 40, devs=DEVS[front])
